@@ -138,7 +138,11 @@ CmdSCARD(a, K) ==
 
 CmdSETALG(a, K, op) ==
   IF Len(a) < 2 THEN Fail(K)
-  ELSE IF \E i \in 2..Len(a) : WrongT(K, a[i], "set") THEN Fail(K)
+  ELSE IF \E i \in 2..Len(a) : WrongT(K, a[i], "set") THEN
+         (* SINTER: Redis 6.2 answers an empty array at the first missing key, Redis 7 checks every key *)
+         LET fw == MinOf({i \in 2..Len(a) : WrongT(K, a[i], "set")}) IN
+         IF op = "inter" /\ \E i \in 2..(fw - 1) : ~Has(K, a[i])
+         THEN Out(ROneOf({RErr, RArr(<<>>)}), K) ELSE Fail(K)
   ELSE LET first == SetVal(K, a[2])
            rest == {SetVal(K, a[i]) : i \in 3..Len(a)}
            res == CASE op = "union" -> UNION ({first} \cup rest)
